@@ -28,7 +28,10 @@ MsgStep(e) ==
         (* C16 fixes the direction for NORTH and SOUTH only: with EAST, WEST or no direction in an NYCT descriptor *)
         (* the trip's key is not determined by the property, and the clauses that compare keys do not apply        *)
         dirOpen == DirOpen(msg)
-        cf == ConflictFree(ents2) /\ ~dirOpen
+        (* an entity carrying several payloads: which of them a parser uses is not fixed by any property; only the *)
+        (* clauses that hold under every reading apply                                                              *)
+        fused == "fuse" \in DOMAIN msg
+        cf == ConflictFree(ents2) /\ ~dirOpen /\ ~fused
         ok == e.err = ""
     IN
     /\ Check("C16.parses", c, l, ok /\ e.plainErr = "")
@@ -40,6 +43,7 @@ MsgStep(e) ==
     /\ Check("C16.unique-sorted", c, l, ok => (C07_UniqueTrips(r) /\ C07_TripsSorted(r)))
     (* the same clauses under the names of the general properties they instantiate for a parse with an extension *)
     /\ Check("C04.links-with-nyct-extension", c, l, (ok /\ cf) => C04_Links(ents2, r))
+    /\ Check("C04.links-mutual-with-nyct-extension", c, l, (ok /\ ConflictFree(ents2) /\ ~dirOpen) => C04_LinksMutual(r))
     /\ Check("C07.unique-sorted-with-nyct-extension", c, l, ok => (C07_UniqueTrips(r) /\ C07_TripsSorted(r) /\ C07_UniqueVehicleIds(r)))
     /\ Check("C07.order-independent-with-nyct-extension", c, l,
              cf => \A k \in DOMAIN e.perms : e.perms[k].err = "" => C07_SameTripsVehiclesLinks(e.perms[k].res, r))
